@@ -389,4 +389,618 @@ Proof.
   - apply (rsplits_reroot (lab t) i i' j X ys Hys). apply (g_uniq _ _ _ G).
 Qed.
 
+
+(* ---- 6. the normalised distance: (rf, total) ----------------------------------------------------- *)
+Theorem rf_norm_value t1 t2 root1 root2 r1 r2 :
+  Good t1 root1 r1 -> Good t2 root2 r2 ->
+  leaf_idx t1 = leaf_idx t2 ->
+  robinson_foulds_norm O (tree_of t1) (tree_of t2) =
+    Ok (rf_value t1 t2 r1 r2, length (part_keys t2 r2) + length (part_keys t1 r1), TC t1 r1, TC t2 r2) /\
+  rf_split (part_keys t1 r1) (part_keys t2 r2) <= length (part_keys t2 r2) + length (part_keys t1 r1).
+Proof.
+  intros G1 G2 E. split.
+  - unfold robinson_foulds_norm. destruct (rf_refines t1 t2 root1 root2 r1 r2 G1 G2 E) as (-> & _).
+    cbn [bind]. rewrite (get_partitions_TC t1 root1 r1 G1). cbn [bind].
+    rewrite (get_partitions_TC t2 root2 r2 G2). reflexivity.
+  - unfold rf_split. pose proof (inter_diff_length (part_keys t1 r1) (part_keys t2 r2)).
+    pose proof (inter_diff_length (part_keys t2 r2) (part_keys t1 r1)). lia.
+Qed.
+
+(* with no root correction the quotient rf / total lies in [0,1]: 0 <= rf <= total *)
+Corollary rf_norm_unit_interval t1 t2 root1 root2 r1 r2 :
+  Good t1 root1 r1 -> Good t2 root2 r2 ->
+  leaf_idx t1 = leaf_idx t2 ->
+  (length (rch r1) <> 2 \/ length (rch r2) <> 2) ->
+  exists rf tot, robinson_foulds_norm O (tree_of t1) (tree_of t2) = Ok (rf, tot, TC t1 r1, TC t2 r2) /\
+                 rf = rf_split (part_keys t1 r1) (part_keys t2 r2) /\
+                 tot = length (part_keys t1 r1) + length (part_keys t2 r2) /\ rf <= tot.
+Proof.
+  intros G1 G2 E H. destruct (rf_norm_value t1 t2 root1 root2 r1 r2 G1 G2 E) as [H1 H2].
+  eexists _, _. split; [apply H1|].
+  assert (Hc : rf_value t1 t2 r1 r2 = rf_split (part_keys t1 r1) (part_keys t2 r2)).
+  { unfold rf_value, rf_corr, two_rooted.
+    replace (Nat.eqb (length (rch r1)) 2 && Nat.eqb (length (rch r2)) 2) with false; [cbn; lia|].
+    symmetry. apply andb_false_iff. rewrite !Nat.eqb_neq. auto. }
+  rewrite Hc. repeat split; lia.
+Qed.
+
+(* ================================================================================================ *)
+(* D. partitions with lengths; the combined report                                                  *)
+(* ================================================================================================ *)
+Definition is_some {A} (o : option A) : bool := match o with Some _ => true | None => false end.
+Definition all_lens (m : pmap) : bool := forallb (fun e => is_some (snd (snd e))) m.
+Definition lens_of (m : pmap) : list (bits * (nat * L)) :=
+  flat_map (fun e => match snd (snd e) with Some l => [(fst e, (fst (snd e), l))] | None => [] end) m.
+
+Lemma mapM_lens (m : pmap) :
+  mapM (fun (e : bits * (nat * option L)) =>
+          match snd (snd e) with
+          | Some l => Ok (fst e, (fst (snd e), l))
+          | None => Err MissingBranchLengths
+          end) m
+  = if all_lens m then Ok (lens_of m) else Err MissingBranchLengths.
+Proof.
+  induction m as [|e m IH]; [reflexivity|]. cbn [mapM all_lens forallb lens_of flat_map].
+  destruct (snd (snd e)); cbn [bind is_some andb]; [|reflexivity].
+  rewrite IH. fold (all_lens m). destruct (all_lens m); reflexivity.
+Qed.
+
+Lemma lens_of_keys (m : pmap) : all_lens m = true -> map fst (lens_of m) = map fst m.
+Proof.
+  induction m as [|e m IH]; [reflexivity|]. cbn [all_lens forallb lens_of flat_map]. intros H.
+  apply andb_true_iff in H as [H1 H2]. destruct (snd (snd e)); [|discriminate]. simpl. f_equal. apply IH, H2.
+Qed.
+
+Lemma lens_of_length (m : pmap) : all_lens m = true -> length (lens_of m) = length m.
+Proof. intros H. rewrite <- (map_length fst), lens_of_keys, map_length; auto. Qed.
+
+Lemma plen_get_mem (po : list (bits * (nat * L))) k : is_some (plen_get po k) = mem_bits k (map fst po).
+Proof.
+  induction po as [|[k' v] po IH]; [reflexivity|]. simpl. destruct (bits_eqb k k'); [reflexivity|]. apply IH.
+Qed.
+
+Lemma filter_map_length {A B} (f : A -> B) (p : B -> bool) l :
+  length (filter (fun x => p (f x)) l) = length (filter p (map f l)).
+Proof. induction l as [|x l IH]; simpl; auto. destruct (p (f x)); simpl; auto. Qed.
+
+Theorem gpwl_fresh t root r : Good t root r ->
+  get_partitions_with_lengths O (tree_of t) =
+  if all_lens (pm t r) then Ok (lens_of (pm t r), TC t r) else Err MissingBranchLengths.
+Proof.
+  intros G. unfold get_partitions_with_lengths, tree_of.
+  rewrite (init_leaf_index_fresh t root r G). cbn [bind]. fold (T1 t).
+  rewrite (init_partitions_pm t root r G). cbn [bind partitions TC].
+  rewrite mapM_lens. destruct (all_lens (pm t r)); reflexivity.
+Qed.
+
+(* weighted RF / KF radicand on fresh trees *)
+Theorem wrf_unfold sq t1 t2 root1 root2 r1 r2 :
+  Good t1 root1 r1 -> Good t2 root2 r2 ->
+  weighted_rf O sq (tree_of t1) (tree_of t2) =
+  if all_lens (pm t1 r1) && all_lens (pm t2 r2)
+  then Ok (wrf_sum O sq (lens_of (pm t1 r1)) (lens_of (pm t2 r2)), TC t1 r1, TC t2 r2)
+  else Err MissingBranchLengths.
+Proof.
+  intros G1 G2. unfold weighted_rf. rewrite (gpwl_fresh t1 root1 r1 G1).
+  destruct (all_lens (pm t1 r1)); [|reflexivity]. cbn [bind andb].
+  rewrite (gpwl_fresh t2 root2 r2 G2). destruct (all_lens (pm t2 r2)); reflexivity.
+Qed.
+
+(* the combined report on fresh trees *)
+Theorem compare_topologies_unfold t1 t2 root1 root2 r1 r2 :
+  Good t1 root1 r1 -> Good t2 root2 r2 ->
+  compare_topologies O (tree_of t1) (tree_of t2) =
+  if all_lens (pm t1 r1) && all_lens (pm t2 r2)
+  then Ok (mkCmp (rf_value t1 t2 r1 r2) (length (part_keys t2 r2) + length (part_keys t1 r1))
+                 (wrf_sum O false (lens_of (pm t1 r1)) (lens_of (pm t2 r2)))
+                 (wrf_sum O true (lens_of (pm t1 r1)) (lens_of (pm t2 r2))), TC t1 r1, TC t2 r2)
+  else Err MissingBranchLengths.
+Proof.
+  intros G1 G2. unfold compare_topologies. rewrite (gpwl_fresh t1 root1 r1 G1).
+  destruct (all_lens (pm t1 r1)) eqn:A1; [|reflexivity]. cbn [bind andb].
+  rewrite (gpwl_fresh t2 root2 r2 G2). destruct (all_lens (pm t2 r2)) eqn:A2; [|reflexivity]. cbn [bind].
+  unfold TC at 1. rewrite (root_parts_good t1 root1 r1 G1). cbn [bind].
+  unfold TC at 1. rewrite (root_parts_good t2 root2 r2 G2). cbn [bind nodes].
+  rewrite (is_rooted_good t1 root1 r1 G1). cbn [bind].
+  assert (Hi : length (filter (fun e : bits * (nat * L) =>
+                  match plen_get (lens_of (pm t2 r2)) (fst e) with Some _ => true | None => false end)
+                  (lens_of (pm t1 r1))) = inter_count (part_keys t1 r1) (part_keys t2 r2)).
+  { rewrite (filter_ext _ (fun e => mem_bits (fst e) (map fst (lens_of (pm t2 r2)))))
+      by (intros e; apply plen_get_mem).
+    rewrite (filter_map_length fst (fun k => mem_bits k (map fst (lens_of (pm t2 r2))))).
+    rewrite !lens_of_keys by auto. rewrite (pm_keys t1 r1), (pm_keys t2 r2). reflexivity. }
+  rewrite Hi. rewrite !lens_of_length by auto.
+  rewrite <- (map_length fst (pm t1 r1)), <- (map_length fst (pm t2 r2)), (pm_keys t1 r1), (pm_keys t2 r2).
+  rewrite (inter_count_sym (part_keys t1 r1) (part_keys t2 r2))
+    by (first [apply (part_keys_NoDup t1 root1 r1 G1) | apply (part_keys_NoDup t2 root2 r2 G2)]).
+  rewrite (rf_arith (part_keys t1 r1) (part_keys t2 r2))
+    by (first [apply (part_keys_NoDup t1 root1 r1 G1) | apply (part_keys_NoDup t2 root2 r2 G2)]).
+  fold (rf_split (part_keys t1 r1) (part_keys t2 r2)).
+  fold (same_root_bits (root_bits t1 r1) (root_bits t2 r2)).
+  unfold rf_value, rf_corr, two_rooted.
+  destruct (Nat.eqb (length (rch r1)) 2) eqn:E1.
+  - rewrite (is_rooted_good t2 root2 r2 G2). cbn [bind].
+    destruct (_ && _ && _ && _); [reflexivity|]. rewrite Nat.add_0_r. reflexivity.
+  - cbn [bind andb]. rewrite Nat.add_0_r. reflexivity.
+Qed.
+
+(* 7. the report's rf and total are those of robinson_foulds / robinson_foulds_norm *)
+Theorem rf_report t1 t2 root1 root2 r1 r2 c s' o' :
+  Good t1 root1 r1 -> Good t2 root2 r2 ->
+  leaf_idx t1 = leaf_idx t2 ->
+  compare_topologies O (tree_of t1) (tree_of t2) = Ok (c, s', o') ->
+  robinson_foulds O (tree_of t1) (tree_of t2) = Ok (c_rf c, s', o') /\
+  robinson_foulds_norm O (tree_of t1) (tree_of t2) = Ok (c_rf c, c_tot c, s', o').
+Proof.
+  intros G1 G2 E H. rewrite (compare_topologies_unfold t1 t2 root1 root2 r1 r2 G1 G2) in H.
+  destruct (_ && _); [|discriminate]. injection H as <- <- <-. cbn [c_rf c_tot].
+  split.
+  - apply (rf_refines t1 t2 root1 root2 r1 r2 G1 G2 E).
+  - apply (rf_norm_value t1 t2 root1 root2 r1 r2 G1 G2 E).
+Qed.
+
+(* 8e. the report's weighted values are exactly the two weighted_rf values (any trees, any caches) *)
+Theorem report_agrees (s o : tree) c s' o' :
+  compare_topologies O s o = Ok (c, s', o') ->
+  exists s1 o1, weighted_rf O false s o = Ok (c_wrf c, s1, o1) /\ weighted_rf O true s o = Ok (c_kf2 c, s1, o1).
+Proof.
+  unfold compare_topologies, weighted_rf.
+  destruct (get_partitions_with_lengths O s) as [[ps s1]| | |]; cbn [bind]; try discriminate.
+  destruct (get_partitions_with_lengths O o) as [[po o1]| | |]; cbn [bind]; try discriminate.
+  destruct (root_parts s1) as [[rs s2]| | |]; cbn [bind]; try discriminate.
+  destruct (root_parts o1) as [[ro o2]| | |]; cbn [bind]; try discriminate.
+  destruct (is_rooted (nodes s2)) as [sr| | |]; cbn [bind]; try discriminate.
+  destruct (if sr then is_rooted (nodes o2) else Ok false) as [orr| | |]; cbn [bind]; try discriminate.
+  intros H. injection H as <- _ _. cbn [c_wrf c_kf2]. eauto.
+Qed.
+
+
+(* ================================================================================================ *)
+(* E. what init_partitions stores for a split: depth of the last inducing node, sum of all lengths   *)
+(* ================================================================================================ *)
+Lemma pmap_get_set (m : pmap) k v k' :
+  pmap_get (pmap_set m k v) k' = if bits_eqb k' k then Some v else pmap_get m k'.
+Proof.
+  induction m as [|[k0 v0] m IH]; simpl.
+  - reflexivity.
+  - destruct (bits_eqb k k0) eqn:E; simpl.
+    + apply bits_eqb_iff in E. subst k0. destruct (bits_eqb k' k); reflexivity.
+    + destruct (bits_eqb k' k0) eqn:E'.
+      * apply bits_eqb_iff in E'. subst k0. rewrite bits_eqb_sym, E. reflexivity.
+      * apply IH.
+Qed.
+
+Lemma pmap_get_In (m : pmap) k v : pmap_get m k = Some v -> In (k, v) m.
+Proof.
+  induction m as [|[k0 v0] m IH]; simpl; [discriminate|].
+  destruct (bits_eqb k k0) eqn:E.
+  - apply bits_eqb_iff in E. subst. intros H. injection H as ->. auto.
+  - auto.
+Qed.
+
+Lemma pmap_get_None (m : pmap) k : pmap_get m k = None <-> ~ In k (map fst m).
+Proof.
+  induction m as [|[k0 v0] m IH]; simpl; [tauto|].
+  destruct (bits_eqb k k0) eqn:E.
+  - apply bits_eqb_iff in E. subst. split; [discriminate|]. intros H. exfalso. auto.
+  - apply bits_eqb_false in E. rewrite IH. split; [intros H [H'|H']; auto|tauto].
+Qed.
+
+Lemma pmap_get_NoDup (m : pmap) e : NoDup (map fst m) -> In e m -> pmap_get m (fst e) = Some (snd e).
+Proof.
+  induction m as [|[k0 v0] m IH]; simpl; [tauto|]. intros Hnd [<-|Hin].
+  - simpl. rewrite bits_eqb_refl. reflexivity.
+  - apply NoDup_cons_iff in Hnd as [Hk Hnd]. destruct (bits_eqb (fst e) k0) eqn:E.
+    + apply bits_eqb_iff in E. subst k0. exfalso. apply Hk. apply in_map. auto.
+    + auto.
+Qed.
+
+(* one step of the accumulation for a given key *)
+Definition upd_entry (cur : option (nat * option L)) (n : node) : option (nat * option L) :=
+  Some (ndepth n,
+        match npedge n, cur with
+        | None, None => None
+        | Some nl, Some (_, ol) => option_map (fun v => ladd O v nl) ol
+        | Some nl, None => Some nl
+        | None, Some (_, ol) => None
+        end).
+
+(* sum of optional lengths, left to right: missing as soon as one is missing *)
+Definition oadd (a o : option L) : option L :=
+  match a, o with Some x, Some y => Some (ladd O x y) | _, _ => None end.
+Definition osum_from (a : option L) (os : list (option L)) : option L := fold_left oadd os a.
+Definition osum (os : list (option L)) : option L :=
+  match os with [] => None | o :: os' => osum_from o os' end.
+
+Lemma osum_from_None os : osum_from None os = None.
+Proof. induction os as [|o os IH]; simpl; auto. Qed.
+
+Lemma osum_from_missing os : forall a, In None os -> osum_from a os = None.
+Proof.
+  induction os as [|o os IH]; simpl; [tauto|]. intros a [->|H].
+  - destruct a; simpl; apply osum_from_None.
+  - apply IH, H.
+Qed.
+
+Lemma osum_from_present (ls : list L) : forall a, osum_from (Some a) (map Some ls) = Some (fold_left (ladd O) ls a).
+Proof. induction ls as [|x ls IH]; simpl; auto. Qed.
+
+Lemma osum_missing os : In None os -> osum os = None.
+Proof.
+  destruct os as [|o os]; simpl; [tauto|]. intros [->|H]; [apply osum_from_None|apply osum_from_missing, H].
+Qed.
+
+Lemma osum_present x (ls : list L) : osum (map Some (x :: ls)) = Some (fold_left (ladd O) ls x).
+Proof. simpl. apply osum_from_present. Qed.
+
+Lemma osum_Some_all os l : osum os = Some l -> forall o, In o os -> o <> None.
+Proof. intros H o Ho ->. rewrite (osum_missing os Ho) in H. discriminate. Qed.
+
+Lemma last_cons_default {A} (l : list A) : forall x d, last (x :: l) d = last l x.
+Proof. induction l as [|y l IH]; intros x d; [reflexivity|]. change (last (y :: l) d = last (y :: l) x). rewrite !IH. reflexivity. Qed.
+
+Lemma fold_upd_entry_Some (ns : list node) : forall d ol,
+  fold_left upd_entry ns (Some (d, ol)) =
+  Some (last (map (@ndepth L) ns) d, osum_from ol (map (@npedge L) ns)).
+Proof.
+  induction ns as [|n ns IH]; intros d ol; [reflexivity|].
+  cbn [fold_left map]. unfold upd_entry at 2.
+  replace (match npedge n with Some nl => option_map (fun v => ladd O v nl) ol | None => None end)
+    with (oadd ol (npedge n)) by (destruct (npedge n), ol; reflexivity).
+  rewrite IH. f_equal. f_equal. symmetry. apply last_cons_default.
+Qed.
+
+Lemma fold_upd_entry_None (ns : list node) :
+  fold_left upd_entry ns None =
+  match ns with
+  | [] => None
+  | n :: ns' => Some (last (map (@ndepth L) ns') (ndepth n), osum (map (@npedge L) ns))
+  end.
+Proof.
+  destruct ns as [|n ns]; [reflexivity|]. cbn [fold_left]. unfold upd_entry at 2.
+  replace (match npedge n with Some nl => Some nl | None => None end) with (npedge n) by (destruct (npedge n); reflexivity).
+  apply fold_upd_entry_Some.
+Qed.
+
+Section Accum.
+Variables (t : arena) (root : nat) (r : rtree).
+Hypothesis G : Good t root r.
+
+(* the candidate nodes (live, non-root, internal), in arena order, whose branch induces the reported split b *)
+Definition inducing (b : bits) : list node :=
+  filter (fun n => nontriv (pb t r n) && bits_eqb (pb t r n) b) (cands t).
+
+Lemma fold_m_next_get (l : list node) : forall (m : pmap) b,
+  pmap_get (fold_left (m_next t r O) l m) b =
+  fold_left upd_entry (filter (fun n => nontriv (pb t r n) && bits_eqb (pb t r n) b) l) (pmap_get m b).
+Proof.
+  induction l as [|n l IH]; intros m b; [reflexivity|].
+  cbn [fold_left filter]. rewrite IH. unfold m_next.
+  replace (nontriv (pb t r n)) with (negb (trivial_part (pb t r n))) by reflexivity.
+  destruct (trivial_part (pb t r n)); cbn [negb andb]; [reflexivity|].
+  rewrite pmap_get_set. rewrite (bits_eqb_sym b).
+  destruct (bits_eqb (pb t r n) b) eqn:E; [|reflexivity].
+  apply bits_eqb_iff in E. rewrite E. reflexivity.
+Qed.
+
+(* 9. the entry stored for b *)
+Theorem pm_get b :
+  pmap_get (pm t r) b =
+  match inducing b with
+  | [] => None
+  | n :: ns' => Some (last (map (@ndepth L) ns') (ndepth n), osum (map (@npedge L) (inducing b)))
+  end.
+Proof.
+  unfold pm. rewrite fold_m_next_get. cbn [pmap_get]. fold (inducing b). rewrite fold_upd_entry_None.
+  destruct (inducing b); reflexivity.
+Qed.
+
+Lemma inducing_In b n : In n (inducing b) <-> In n t /\ cand n = true /\ pb t r n = b /\ trivial_part b = false.
+Proof.
+  unfold inducing, cands. rewrite !filter_In, andb_true_iff, bits_eqb_iff. unfold nontriv. rewrite negb_true_iff.
+  split.
+  - intros ((H1 & H2) & H3 & H4). subst b. auto.
+  - intros (H1 & H2 & H3 & H4). subst b. auto.
+Qed.
+
+Lemma inducing_nonempty b : In b (part_keys t r) <-> inducing b <> [].
+Proof.
+  rewrite part_keys_In. split.
+  - intros (n & Hn & Hc & -> & Ht) E.
+    assert (H : In n (inducing (pb t r n))) by (apply inducing_In; auto). rewrite E in H. inversion H.
+  - intros H. destruct (inducing b) as [|n ns] eqn:E; [congruence|].
+    assert (Hn : In n (inducing b)) by (rewrite E; simpl; auto).
+    apply inducing_In in Hn as (H1 & H2 & H3 & H4). exists n. auto.
+Qed.
+
+(* the accumulated length of a split *)
+Definition split_len (b : bits) : option L :=
+  match pmap_get (pm t r) b with Some (_, ol) => ol | None => None end.
+Definition split_depth (b : bits) : option nat :=
+  match pmap_get (pm t r) b with Some (d, _) => Some d | None => None end.
+
+Theorem split_len_sum b : split_len b = osum (map (@npedge L) (inducing b)).
+Proof. unfold split_len. rewrite pm_get. destruct (inducing b); reflexivity. Qed.
+
+Theorem split_depth_last b : split_depth b = last (map (fun n => Some (ndepth n)) (inducing b)) None.
+Proof.
+  unfold split_depth. rewrite pm_get. destruct (inducing b) as [|n ns]; [reflexivity|].
+  cbn [map]. rewrite last_cons_default. generalize (ndepth n) as d.
+  induction ns as [|n' ns IH]; intros d; [reflexivity|].
+  cbn [map]. rewrite !last_cons_default. apply IH.
+Qed.
+
+(* all lengths present: the plain left-to-right sum over all inducing branches (both branches of a
+   two-child root, every member of a unary chain) *)
+Theorem split_len_all_present b n ns ls :
+  inducing b = n :: ns -> map (@npedge L) (n :: ns) = map Some ls ->
+  split_len b = match ls with [] => None | x :: ls' => Some (fold_left (ladd O) ls' x) end.
+Proof.
+  intros E H. rewrite split_len_sum, E, H. destruct ls as [|x ls]; [discriminate|]. apply osum_present.
+Qed.
+
+(* one missing length: missing *)
+Theorem split_len_missing b n : In n (inducing b) -> npedge n = None -> split_len b = None.
+Proof.
+  intros Hn E. rewrite split_len_sum. apply osum_missing. rewrite <- E. apply in_map. auto.
+Qed.
+
+(* all_lens: every reported split has a stored length *)
+Lemma all_lens_spec : all_lens (pm t r) = true <-> forall b, In b (part_keys t r) -> split_len b <> None.
+Proof.
+  pose proof (part_keys_NoDup t root r G) as Hnd. rewrite <- pm_keys in Hnd.
+  unfold all_lens. rewrite forallb_forall. split.
+  - intros H b Hb. unfold split_len. destruct (pmap_get (pm t r) b) as [[d ol]|] eqn:E.
+    + apply pmap_get_In in E. specialize (H _ E). simpl in H. destruct ol; [discriminate|discriminate].
+    + apply pmap_get_None in E. rewrite pm_keys in E. contradiction.
+  - intros H [k [d ol]] He. cbn [snd]. specialize (H k).
+    unfold split_len in H. pose proof (pmap_get_NoDup _ _ Hnd He) as Hg. cbn [fst snd] in Hg. rewrite Hg in H.
+    destruct ol; [reflexivity|]. exfalso. apply H; auto. rewrite <- pm_keys. apply (in_map fst _ _ He).
+Qed.
+
+Theorem all_lens_iff :
+  all_lens (pm t r) = true <->
+  forall n, In n t -> cand n = true -> trivial_part (pb t r n) = false -> npedge n <> None.
+Proof.
+  rewrite all_lens_spec. split.
+  - intros H n Hn Hc Ht E. apply (H (pb t r n)).
+    + apply part_keys_In. eauto.
+    + apply (split_len_missing _ n); auto. apply inducing_In. auto.
+  - intros H b Hb. rewrite split_len_sum. apply inducing_nonempty in Hb.
+    destruct (inducing b) as [|n ns] eqn:E; [congruence|].
+    assert (Hall : forall o, In o (map (@npedge L) (n :: ns)) -> o <> None).
+    { intros o Ho. apply in_map_iff in Ho as (n' & <- & Hn'). rewrite <- E in Hn'.
+      apply inducing_In in Hn' as (H1 & H2 & H3 & H4). apply H; auto. rewrite H3. auto. }
+    clear E. cbn [map osum]. cbn [map] in Hall.
+    assert (Hgen : forall os a, a <> None -> (forall o, In o os -> o <> None) -> osum_from a os <> None).
+    { induction os as [|o os IH]; intros a Ha Hos; simpl; auto.
+      apply IH; [|intros; apply Hos; simpl; auto].
+      destruct a; [|congruence]. destruct o eqn:Eo; [discriminate|]. exfalso. apply (Hos None); simpl; auto. }
+    apply Hgen; [apply Hall; simpl; auto|intros; apply Hall; simpl; auto].
+Qed.
+
+(* the list of (key, (depth, length)) handed out by get_partitions_with_lengths *)
+Lemma plen_get_lens (m : pmap) k : all_lens m = true ->
+  plen_get (lens_of m) k =
+  match pmap_get m k with Some (d, Some l) => Some (d, l) | _ => None end.
+Proof.
+  induction m as [|[k0 [d ol]] m IH]; [reflexivity|]. cbn [all_lens forallb lens_of flat_map snd fst].
+  intros H. apply andb_true_iff in H as [H1 H2]. destruct ol as [l|]; [|discriminate].
+  cbn [app plen_get pmap_get]. destruct (bits_eqb k k0); [reflexivity|]. apply IH, H2.
+Qed.
+
+Theorem gpwl_entry k : all_lens (pm t r) = true ->
+  plen_get (lens_of (pm t r)) k =
+  match split_depth k, split_len k with Some d, Some l => Some (d, l) | _, _ => None end.
+Proof.
+  intros H. rewrite plen_get_lens by auto. unfold split_depth, split_len.
+  destruct (pmap_get (pm t r) k) as [[d [l|]]|]; reflexivity.
+Qed.
+
+End Accum.
+
+
+(* ================================================================================================ *)
+(* F. wrf_sum as a sum over the union of the two key sets                                            *)
+(* ================================================================================================ *)
+Notation plist := (list (bits * (nat * L))).
+
+Lemma plen_get_In (m : plist) k v : plen_get m k = Some v -> In (k, v) m.
+Proof.
+  induction m as [|[k0 v0] m IH]; simpl; [discriminate|].
+  destruct (bits_eqb k k0) eqn:E.
+  - apply bits_eqb_iff in E. subst. intros H. injection H as ->. auto.
+  - auto.
+Qed.
+
+Lemma plen_get_NoDup (m : plist) e : NoDup (map fst m) -> In e m -> plen_get m (fst e) = Some (snd e).
+Proof.
+  induction m as [|[k0 v0] m IH]; simpl; [tauto|]. intros Hnd [<-|Hin].
+  - simpl. rewrite bits_eqb_refl. reflexivity.
+  - apply NoDup_cons_iff in Hnd as [Hk Hnd]. destruct (bits_eqb (fst e) k0) eqn:E.
+    + apply bits_eqb_iff in E. subst k0. exfalso. apply Hk. apply in_map. auto.
+    + auto.
+Qed.
+
+Lemma plen_get_None (m : plist) k : plen_get m k = None <-> ~ In k (map fst m).
+Proof.
+  rewrite <- mem_bits_false, <- plen_get_mem. destruct (plen_get m k); simpl; split; congruence.
+Qed.
+
+Lemma fold_left_ext' {A B} (f g : A -> B -> A) l : (forall a x, f a x = g a x) ->
+  forall a, fold_left f l a = fold_left g l a.
+Proof. intros H. induction l as [|x l IH]; intros a; simpl; auto. rewrite H. apply IH. Qed.
+
+Lemma fold_ladd_map {A} (h : A -> L) l : forall a,
+  fold_left (fun acc e => ladd O acc (h e)) l a = fold_left (ladd O) (map h l) a.
+Proof. induction l as [|x l IH]; intros a; simpl; auto. Qed.
+
+Lemma fold_ladd_skip {A} (p : A -> bool) (h : A -> L) l : forall a,
+  fold_left (fun acc e => if p e then acc else ladd O acc (h e)) l a
+  = fold_left (ladd O) (map h (filter (fun e => negb (p e)) l)) a.
+Proof. induction l as [|x l IH]; intros a; simpl; auto. destruct (p x); simpl; auto. Qed.
+
+Lemma filter_map_comm {A B} (f : A -> B) (p : B -> bool) l :
+  filter p (map f l) = map f (filter (fun x => p (f x)) l).
+Proof. induction l as [|x l IH]; simpl; auto. destruct (p (f x)); simpl; congruence. Qed.
+
+Lemma filter_all_false {A} (p : A -> bool) l : (forall x, In x l -> p x = false) -> filter p l = [].
+Proof.
+  induction l as [|x l IH]; simpl; auto. intros H. rewrite (H x) by auto. apply IH. intros; apply H; auto.
+Qed.
+
+Section WrfAlgebra.
+Variable sq : bool.
+
+(* |x| or x^2 for a difference; x or x^2 for a length met in one tree only *)
+Definition wf_ (x : L) : L := if sq then lmul O x x else labs O x.
+Definition wg_ (x : L) : L := if sq then lmul O x x else x.
+Definition len_e (e : bits * (nat * L)) : L := snd (snd e).
+Definition len_at (m : plist) (k : bits) : L := match plen_get m k with Some (_, l) => l | None => l0 O end.
+
+Definition term1 (po : plist) (e : bits * (nat * L)) : L :=
+  match plen_get po (fst e) with
+  | Some (_, lo) => wf_ (lsub O (len_e e) lo)
+  | None => wg_ (len_e e)
+  end.
+
+(* 8b. as written: first the splits of the first tree, then those only in the second *)
+Theorem wrf_sum_terms (ps po : plist) :
+  wrf_sum O sq ps po =
+  fold_left (ladd O)
+    (map (term1 po) ps ++
+     map (fun e => wg_ (len_e e)) (filter (fun e => negb (is_some (plen_get ps (fst e)))) po)) (l0 O).
+Proof.
+  unfold wrf_sum. cbv zeta. rewrite fold_left_app.
+  rewrite <- (fold_ladd_skip (fun e => is_some (plen_get ps (fst e))) (fun e => wg_ (len_e e))).
+  rewrite <- (fold_ladd_map (term1 po)).
+  match goal with |- fold_left ?f po ?a = fold_left ?g po ?b => assert (E : a = b) end.
+  { apply fold_left_ext'. intros a e. unfold term1. destruct (plen_get po (fst e)) as [[d lo]|]; reflexivity. }
+  rewrite E. apply fold_left_ext'.
+  intros a e. destruct (plen_get ps (fst e)); reflexivity.
+Qed.
+
+(* the contribution of key k *)
+Definition kterm (ps po : plist) (k : bits) : L :=
+  match plen_get ps k, plen_get po k with
+  | Some (_, a), Some (_, b) => wf_ (lsub O a b)
+  | Some (_, a), None => wg_ a
+  | None, Some (_, b) => wg_ b
+  | None, None => l0 O
+  end.
+(* keys of the first list, then the keys only in the second *)
+Definition ukeys (ps po : plist) : list bits :=
+  map fst ps ++ filter (fun k => negb (mem_bits k (map fst ps))) (map fst po).
+
+Lemma ukeys_In ps po k : In k (ukeys ps po) <-> In k (map fst ps) \/ In k (map fst po).
+Proof.
+  unfold ukeys. rewrite in_app_iff, filter_In, negb_true_iff, mem_bits_false.
+  destruct (in_dec bits_eq_dec k (map fst ps)); tauto.
+Qed.
+
+Lemma ukeys_NoDup ps po : NoDup (map fst ps) -> NoDup (map fst po) -> NoDup (ukeys ps po).
+Proof.
+  intros H1 H2. unfold ukeys. apply NoDup_app_iff. repeat split; auto using NoDup_filter.
+  intros x Hx Hx'. apply filter_In in Hx' as [_ Hx']. apply negb_true_iff, mem_bits_false in Hx'. auto.
+Qed.
+
+Theorem wrf_sum_keys (ps po : plist) :
+  NoDup (map fst ps) -> NoDup (map fst po) ->
+  wrf_sum O sq ps po = fold_left (ladd O) (map (kterm ps po) (ukeys ps po)) (l0 O).
+Proof.
+  intros N1 N2. rewrite wrf_sum_terms. unfold ukeys. rewrite map_app. f_equal. f_equal.
+  - rewrite map_map. apply map_ext_in. intros e He. unfold term1, kterm.
+    rewrite (plen_get_NoDup ps e N1 He). destruct e as [k [d a]]. cbn [fst snd len_e].
+    destruct (plen_get po k) as [[d' b]|]; reflexivity.
+  - rewrite filter_map_comm, map_map.
+    rewrite (filter_ext (fun e : bits * (nat * L) => negb (is_some (plen_get ps (fst e))))
+                        (fun e => negb (mem_bits (fst e) (map fst ps))))
+      by (intros e; rewrite plen_get_mem; reflexivity).
+    apply map_ext_in. intros e He. apply filter_In in He as [He Hn].
+    apply negb_true_iff, mem_bits_false, plen_get_None in Hn. unfold kterm. rewrite Hn.
+    rewrite (plen_get_NoDup po e N2 He). destruct e as [k [d b]]. reflexivity.
+Qed.
+
+(* 8c. with x - 0 and 0 - x contributing like x: one formula over the union of the keys, absent = 0 *)
+Theorem wrf_sum_union (ps po : plist) :
+  NoDup (map fst ps) -> NoDup (map fst po) ->
+  (forall e, In e ps -> wf_ (lsub O (len_e e) (l0 O)) = wg_ (len_e e)) ->
+  (forall e, In e po -> wf_ (lsub O (l0 O) (len_e e)) = wg_ (len_e e)) ->
+  wrf_sum O sq ps po =
+  fold_left (ladd O) (map (fun k => wf_ (lsub O (len_at ps k) (len_at po k))) (ukeys ps po)) (l0 O).
+Proof.
+  intros N1 N2 H1 H2. rewrite wrf_sum_keys by auto. f_equal. apply map_ext_in. intros k Hk.
+  unfold kterm, len_at.
+  destruct (plen_get ps k) as [[d a]|] eqn:E1; destruct (plen_get po k) as [[d' b]|] eqn:E2; auto.
+  - apply plen_get_In in E1. symmetry. apply (H1 _ E1).
+  - apply plen_get_In in E2. symmetry. apply (H2 _ E2).
+  - exfalso. apply ukeys_In in Hk. apply plen_get_None in E1, E2. tauto.
+Qed.
+
+Section Laws.
+Hypothesis ladd_assoc : forall x y z, ladd O x (ladd O y z) = ladd O (ladd O x y) z.
+Hypothesis ladd_comm : forall x y, ladd O x y = ladd O y x.
+
+Lemma fold_ladd_perm' (l l' : list L) :
+  Permutation l l' -> forall a, fold_left (ladd O) l a = fold_left (ladd O) l' a.
+Proof.
+  induction 1; intros a; simpl; auto.
+  - f_equal. rewrite <- !ladd_assoc. f_equal. apply ladd_comm.
+  - rewrite IHPermutation1. auto.
+Qed.
+
+(* any duplicate-free enumeration of the union of the keys gives the same sum *)
+Theorem wrf_sum_any_order (ps po : plist) (ks : list bits) :
+  NoDup (map fst ps) -> NoDup (map fst po) ->
+  NoDup ks -> (forall k, In k ks <-> In k (map fst ps) \/ In k (map fst po)) ->
+  wrf_sum O sq ps po = fold_left (ladd O) (map (kterm ps po) ks) (l0 O).
+Proof.
+  intros N1 N2 Nk Hk. rewrite wrf_sum_keys by auto. apply fold_ladd_perm'. apply Permutation_map.
+  apply NoDup_Permutation; auto using ukeys_NoDup. intros k. rewrite ukeys_In, Hk. tauto.
+Qed.
+
+Hypothesis wf_sym : forall a b, wf_ (lsub O a b) = wf_ (lsub O b a).
+
+Lemma kterm_sym ps po k : kterm ps po k = kterm po ps k.
+Proof.
+  unfold kterm. destruct (plen_get ps k) as [[d a]|]; destruct (plen_get po k) as [[d' b]|]; auto.
+Qed.
+
+(* 8d. symmetry *)
+Theorem wrf_sum_sym (ps po : plist) :
+  NoDup (map fst ps) -> NoDup (map fst po) -> wrf_sum O sq ps po = wrf_sum O sq po ps.
+Proof.
+  intros N1 N2. rewrite (wrf_sum_keys po ps) by auto.
+  rewrite (wrf_sum_any_order ps po (ukeys po ps)); auto using ukeys_NoDup.
+  - f_equal. apply map_ext. intros k. apply kterm_sym.
+  - intros k. rewrite ukeys_In. tauto.
+Qed.
+
+End Laws.
+
+(* a list against itself: every term is f (l - l) *)
+Theorem wrf_sum_self (ps : plist) :
+  NoDup (map fst ps) ->
+  wrf_sum O sq ps ps = fold_left (ladd O) (map (fun e => wf_ (lsub O (len_e e) (len_e e))) ps) (l0 O).
+Proof.
+  intros N. rewrite wrf_sum_terms.
+  assert (E : filter (fun e : bits * (nat * L) => negb (is_some (plen_get ps (fst e)))) ps = []).
+  { apply filter_all_false. intros e He. rewrite (plen_get_NoDup ps e N He). reflexivity. }
+  rewrite E, app_nil_r.
+  f_equal. apply map_ext_in. intros e He. unfold term1. rewrite (plen_get_NoDup ps e N He).
+  destruct e as [k [d a]]. reflexivity.
+Qed.
+
+Corollary wrf_sum_self_zero (ps : plist) :
+  NoDup (map fst ps) ->
+  (forall a, wf_ (lsub O a a) = l0 O) -> ladd O (l0 O) (l0 O) = l0 O ->
+  wrf_sum O sq ps ps = l0 O.
+Proof.
+  intros N Hz H0. rewrite wrf_sum_self by auto.
+  induction ps as [|e ps IH]; [reflexivity|]. cbn [map fold_left]. rewrite Hz, H0. apply IH.
+  simpl in N. apply NoDup_cons_iff in N. tauto.
+Qed.
+
+End WrfAlgebra.
+
 End RFArena.
